@@ -52,10 +52,29 @@ def reading_then_failing(net, items, bad):
     yield bad
 
 
+def building(net, items, nested):
+    """A lazy iterable that goes on BUILDING the same network while a bulk call consumes it (a generator that
+    creates the nodes of a stretch and attaches the on-ramp / destination of each node as it yields it)."""
+    for i, it in enumerate(items):
+        if i < len(nested):
+            nested[i](net)
+        yield it
+
+
 def alphabet(U):
-    """~55 mutating calls as (kind, callable(net), description)."""
+    """~60 mutating calls as (kind, callable(net), description)."""
     N, L, O, D = U.N, U.L, U.O, U.D
     ops = []
+    ops.append(("add_links", lambda net: net.add_links(building(net, [(N[0], L[0], N[1]), (N[1], L[1], N[2])],
+                                                                [lambda n_: n_.add_origin(O[0], N[0]), lambda n_: n_.add_destination(D[0], N[2])])),
+                ("add_links", "generator that attaches an origin and a destination meanwhile")))
+    ops.append(("add_nodes", lambda net: net.add_nodes(building(net, [N[0], N[1], N[2]],
+                                                                [lambda n_: n_.add_link(N[0], L[2], N[1]), lambda n_: n_.add_origin(O[1], N[1]),
+                                                                 lambda n_: n_.add_destination(D[1], N[2])])),
+                ("add_nodes", "generator that adds a link, an origin and a destination meanwhile")))
+    ops.append(("add_path", lambda net: net.add_path(building(net, (N[0], L[0], N[1], L[1], N[2]),
+                                                              [lambda n_: None, lambda n_: None, lambda n_: n_.add_path((N[1], L[2], N[0]), origin=O[0])])),
+                ("add_path", "generator that lays another path meanwhile")))
     ops.append(("add_nodes!", lambda net: net.add_nodes(reading_then_failing(net, [N[0], N[1]], "raise")),
                 ("add_nodes", "reading generator that raises after 0,1")))
     ops.append(("add_links!", lambda net: net.add_links(reading_then_failing(net, [(N[0], L[0], N[1]), (N[1], L[1], N[2])], "raise")),
